@@ -48,7 +48,20 @@ OrdIntersect(a, b) == Dedupe(Keep(a, b))
 OrdDiff(a, b) == Dedupe(Drop(a, b))
 
 R(ok, q, ret, rset, rord) == [ok |-> ok, s |-> q, ret |-> ret, rset |-> rset, rord |-> rord]
+\* the named methods of the set protocol are aliases of the operator forms
+Canon(op) ==
+  CASE op = "difference_update" -> "isub"
+    [] op = "intersection_update" -> "iand"
+    [] op = "symmetric_difference_update" -> "ixor"
+    [] op = "difference" -> "sub"
+    [] op = "intersection" -> "and"
+    [] op = "symmetric_difference" -> "xor"
+    [] OTHER -> op
+AliasOps == {"difference_update", "intersection_update", "symmetric_difference_update",
+             "difference", "intersection", "symmetric_difference"}
+RECURSIVE Apply(_, _)
 Apply(c, q) ==
+  IF c[1] \in AliasOps THEN Apply(<<Canon(c[1]), c[2]>>, q) ELSE
   CASE c[1] = "add"      -> R(TRUE, AddE(q, c[2]), NONE, NONE, FALSE)
     [] c[1] = "discard"  -> R(TRUE, DelE(q, c[2]), NONE, NONE, FALSE)
     [] c[1] = "remove"   -> IF In(c[2], q) THEN R(TRUE, DelE(q, c[2]), NONE, NONE, FALSE) ELSE R(FALSE, q, NONE, NONE, FALSE)
@@ -67,6 +80,8 @@ Apply(c, q) ==
     [] c[1] = "copy"     -> R(TRUE, q, NONE, q, TRUE)
     [] c[1] = "contains" -> R(TRUE, q, In(c[2], q), NONE, FALSE)
     [] c[1] = "len"      -> R(TRUE, q, Len(q), NONE, FALSE)
+    [] c[1] = "issubset"   -> R(TRUE, q, AsSet(q) \subseteq AsSet(c[2]), NONE, FALSE)
+    [] c[1] = "issuperset" -> R(TRUE, q, AsSet(c[2]) \subseteq AsSet(q), NONE, FALSE)
     [] c[1] = "ordered_union"     -> R(TRUE, q, NONE, OrdUnion(c[2], c[3]), TRUE)
     [] c[1] = "ordered_intersect" -> R(TRUE, q, NONE, OrdIntersect(c[2], c[3]), TRUE)
     [] c[1] = "ordered_diff"      -> R(TRUE, q, NONE, OrdDiff(c[2], c[3]), TRUE)
@@ -75,7 +90,8 @@ Args == UNION {[1..n -> Elems] : n \in 0..MaxArg}
 Calls ==
   {<<op, e>> : op \in {"add", "discard", "remove", "contains"}, e \in Elems}
   \cup {<<op>> : op \in {"pop", "clear", "copy", "len"}}
-  \cup {<<op, a>> : op \in {"update", "ior", "iand", "isub", "ixor", "union", "or", "and", "sub", "xor"}, a \in Args}
+  \cup {<<op, a>> : op \in {"update", "ior", "iand", "isub", "ixor", "union", "or", "and", "sub", "xor",
+                              "issubset", "issuperset"} \cup AliasOps, a \in Args}
   \cup {<<op, a, b>> : op \in {"ordered_union", "ordered_intersect", "ordered_diff"}, a \in Args, b \in Args}
 
 Init == s = <<>> /\ nops = 0 /\ hist = <<>>
@@ -96,7 +112,8 @@ Spec == Init /\ [][Next]_vars
 \* ---------------------------------------------------------------- properties
 NoDuplicates == NoDup(s)
 \* refinement: every call acts on AsSet(s) as the same call acts on a plain set
-PlainSet(c, S) ==
+PlainSet(c0, S) ==
+  LET c == IF c0[1] \in AliasOps THEN <<Canon(c0[1]), c0[2]>> ELSE c0 IN
   CASE c[1] = "add" -> S \cup {c[2]}
     [] c[1] \in {"discard", "remove"} -> S \ {c[2]}
     [] c[1] = "clear" -> {}
@@ -105,7 +122,8 @@ PlainSet(c, S) ==
     [] c[1] = "isub" -> S \ AsSet(c[2])
     [] c[1] = "ixor" -> (S \ AsSet(c[2])) \cup (AsSet(c[2]) \ S)
     [] OTHER -> S
-PlainResult(c, S) ==
+PlainResult(c0, S) ==
+  LET c == IF c0[1] \in AliasOps THEN <<Canon(c0[1]), c0[2]>> ELSE c0 IN
   CASE c[1] \in {"union", "or"} -> S \cup AsSet(c[2])
     [] c[1] = "and" -> S \cap AsSet(c[2])
     [] c[1] = "sub" -> S \ AsSet(c[2])
@@ -129,8 +147,8 @@ OrderKept ==
   \A c \in Calls : (c[1] # "pop") =>
      LET r == Apply(c, s)
          stay == SelectSeq(s, LAMBDA x : In(x, r.s))
-     IN  /\ SubSeq(r.s, 1, Len(stay)) = stay \/ c[1] = "ixor"
-         /\ (c[1] = "ixor" => SelectSeq(r.s, LAMBDA x : In(x, s)) = stay)
+     IN  /\ SubSeq(r.s, 1, Len(stay)) = stay \/ Canon(c[1]) = "ixor"
+         /\ (Canon(c[1]) = "ixor" => SelectSeq(r.s, LAMBDA x : In(x, s)) = stay)
 \* the helpers are ordered by the first argument, then by the second
 HelperOrder ==
   \A a \in Args, b \in Args :
